@@ -75,6 +75,7 @@ type Interp struct {
 	nForks   int
 	second   string // second solver binary for verdict queries ("" = none)
 	forkSites map[string]int
+	slowMs   int
 	collected [][]*State
 	nMerged  int
 	stepCap  int
@@ -270,6 +271,8 @@ func evalTerm(t *Term, m map[string]*big.Int) *big.Int {
 				r = tf.LOr(args[0], args[1])
 			case "ite":
 				r = tf.Ite(args[0], args[1], args[2])
+			case "tbl":
+				r = tf.TableSel(x.Tbl, x.W, args[0])
 			case "=", "bvult", "bvule", "bvslt", "bvsle":
 				r = tf.Cmp(x.Op, args[0], args[1])
 			default:
@@ -329,6 +332,9 @@ func (in *Interp) Explore(st *State, stop int) {
 				res = "sat" // pc is sat and all other sides were not
 			} else {
 				res = in.sol.CheckWith(c)
+				if in.slowMs > 0 && in.sol.LastQuery.Milliseconds() > int64(in.slowMs) {
+					fmt.Printf("SLOWQ %dms fork %s in %s -> %s\n", in.sol.LastQuery.Milliseconds(), fr.why, st.top().fn.String(), res)
+				}
 			}
 			if res == "unsat" {
 				continue
@@ -816,11 +822,18 @@ func (in *Interp) globalPtr(st *State, g *ssa.Global) Value {
 		return Ptr{Obj: id}
 	}
 	pkg := g.Pkg
+	allowed := in.initAllowed(pkg)
 	for _, m := range pkg.Members {
 		if gg, ok := m.(*ssa.Global); ok {
 			if _, ok := st.globals[gg]; !ok {
 				et := gg.Type().(*types.Pointer).Elem()
-				st.globals[gg] = st.alloc(in.zero(et), "global "+gg.String())
+				var cell Value = in.zero(et)
+				if !allowed && !zeroIsFine(et) {
+					// the package's init is not executed: its variables have no
+					// trustworthy value, any use in a decision ends the path loudly
+					cell = Poison{"global " + gg.String() + " of a package whose init is not executed"}
+				}
+				st.globals[gg] = st.alloc(cell, "global "+gg.String())
 			}
 		}
 	}
@@ -833,12 +846,23 @@ func (in *Interp) globalPtr(st *State, g *ssa.Global) Value {
 	return Ptr{Obj: st.globals[g]}
 }
 
+// zeroIsFine: synchronisation primitives and plain counters start at their zero value.
+func zeroIsFine(t types.Type) bool {
+	if n, ok := t.(*types.Named); ok && n.Obj().Pkg() != nil {
+		p := n.Obj().Pkg().Path()
+		if p == "sync" || p == "sync/atomic" {
+			return true
+		}
+	}
+	return false
+}
+
 var initDeny = []string{"runtime", "internal/", "syscall", "os", "sync", "reflect", "unsafe", "time", "context", "crypto/", "math/rand", "unique",
 	"github.com/sirupsen/logrus", "unicode", "fmt", "log", "sort", "strconv", "database/sql", "github.com/mattn", "github.com/fsnotify",
 	"github.com/spf13", "github.com/google/gopacket", "golang.org/x/sys", "golang.org/x/net", "encoding/json", "math/big", "regexp", "text/", "html",
 	"github.com/chappjc", "github.com/bits-and-blooms/bitset", "vendor/", "golang.org/x/text", "gopkg.in", "github.com/pelletier", "github.com/hashicorp",
 	"github.com/magiconair", "github.com/mitchellh", "github.com/subosito", "github.com/sagikazarmark", "github.com/sourcegraph", "mime", "compress", "archive",
-	"encoding/base64", "encoding/hex", "hash", "bufio", "path", "net/http", "net/url", "net/netip", "io/fs", "embed", "flag", "testing", "github.com/stretchr",
+	"encoding/base64", "encoding/hex", "hash", "bufio", "path", "net/http", "net/url", "io/fs", "embed", "flag", "testing", "github.com/stretchr",
 	"github.com/davecgh", "github.com/pmezard", "github.com/mdlayher", "github.com/josharian", "github.com/pierrec", "github.com/klauspost", "github.com/u-root/uio/rand"}
 
 func (in *Interp) initAllowed(pkg *ssa.Package) bool {
